@@ -1210,6 +1210,9 @@ func (w *_listpairsFieldListAssemblerRepr) AssembleValue() datamodel.NodeAssembl
 }
 
 func (w *_listpairsFieldListAssemblerRepr) Finish() error {
+	if w.idx < 2 {
+		return fmt.Errorf("bindnode: too few values in listpairs field")
+	}
 	return nil
 }
 
